@@ -8,6 +8,8 @@ package httpproxy
 // follows the documentation of Config.NoProxy and of ProxyFunc and works on what the harness knows about the
 // templates (address bytes, prefix length, lower-cased name, port digits).
 //
+// IDN entries and hosts: VerifC52_idn in zz_verif_c52_idn_test.go (seed C52-D: idnaASCII applied to the raw entry; caught, quick).
+//
 // Cost note (as in C53): template shapes (digit counts, dots, colons, letter case per position) are concrete,
 // contents symbolic; each symbolic character has one character class so that parsers do not fork on it.
 //
